@@ -10,6 +10,7 @@ Parts (one shard kind each):
           scan-line dimension or being it) against grids and sequences
   wide    max_distance 2000 km: the chord is inside, the great circle is not
   long    max_interval 36 h and 48 h with points 12, 36 and 48 h apart
+  repr    whole-degree positions stored as float32 / int64 / int32 arrays
   history explicit-state BFS over call histories on one reused Collocator
           (c04_history.py)
   large   temporally pre-binned path: cores inside 1001 x 1000 filler points
@@ -67,7 +68,19 @@ RULE = (
     "every pair of "
     "sequences of length 1..2 over 4 points (thorough 5) 0, 12, 36 and 48 h "
     "apart. wide and long, thorough: also every single deviation on the "
-    "pairs of single points. " + c04_history.RULE + " " + c04_large.RULE +
+    "pairs of single points. repr: 6 points on whole degrees (three 1.94 / "
+    "3.88 / 5.82 km apart on latitude 89, lon 180 and -180 on the equator, a "
+    "point whose float32 cartesian coordinates are 1.16 m off; seconds 0, "
+    "6, 12) whose lat / lon variables are stored as float64, float32, int64 "
+    "or int32: every ordered pair of single points and the 2 x 2 (G) and "
+    "2 x 3 (H) grids of two scan lines against both orders of the lines, x "
+    "every (type of the primary, type of the secondary) out of the 4 x 4; "
+    "the sequence of all 6 points against its reversal x {5 km, 1 m} x "
+    "{all float64; one dataset float64 and the other with (lat, lon) = "
+    "(t, t), (t, float64), (float64, t) for each other type t; every "
+    "ordered pair of the other types}. A failure that the same call with "
+    "float64 positions does not share is reported under the type's key. "
+    + c04_history.RULE + " " + c04_large.RULE +
     " One evaluation = one collocate() call compared with the brute force; "
     "all evaluations are distinct inputs by construction (history calls and "
     "the direct searches after a binned one: distinct call prefixes). "
@@ -83,7 +96,9 @@ ASSUMPTIONS = [
     "is the primary",
     "time is 1-dimensional (on the scan-line dimension of a grid), as the "
     "docstring of collocate() demands; latitudes and longitudes are "
-    "float64 (float32 positions of a file resolve 0.5 m only)",
+    "float64, in the repr part also float32 / int64 / int32 holding whole "
+    "degrees exactly (the values are the same numbers, so the same pairs, "
+    "distances and carried positions are demanded)",
     "both max_distance and max_interval are given (spatial-only and "
     "temporal-only searches are other modes)",
     "datasets carry coordinates with unique labels on their point / grid "
@@ -117,6 +132,11 @@ SPECIAL = {
               "1.5days")),
 }
 GRID_PAIRS = (("H", "H"), ("GT", "GT"), ("GT", "H"), ("H", "G"))
+# part repr: points and scan lines on whole degrees, position types
+PWHOLE = "UVWXYZ"
+LWHOLE = "gh"
+F64 = model.F64
+POSITION_TYPES = ("float32", "int64", "int32")
 
 
 def sequences(alphabet, maxlen):
@@ -145,6 +165,22 @@ def deviations(order, **fixed):
             yield with_(**dict(zip(chosen, values)), **fixed)
 
 
+def uniform_position_cases():
+    """(pos1, pos2): one type per dataset, every ordered pair of the 4."""
+    return [((t, t), (u, u)) for t, u in itertools.product(
+        ("float64",) + POSITION_TYPES, repeat=2)]
+
+
+def position_cases():
+    """(pos1, pos2): all float64, one dataset at a time (lat and lon, lat
+    only, lon only), both datasets."""
+    one = [s for t in POSITION_TYPES
+           for s in ((t, t), (t, "float64"), ("float64", t))]
+    return [(F64, F64)] + [(s, F64) for s in one] + [(F64, s) for s in one] \
+        + [((t, t), (u, u))
+           for t, u in itertools.product(POSITION_TYPES, repeat=2)]
+
+
 def shards(tier, seed):
     quick = tier == "quick"
     out = [("base", tier, s) for s in sequences(PQUICK if quick else PALL, 2)]
@@ -153,6 +189,7 @@ def shards(tier, seed):
     out += [("grid", tier, g) for g in grids("abc" if quick else "abcdef")]
     for part, (aq, at, _, _) in SPECIAL.items():
         out += [(part, tier, s) for s in sequences(aq if quick else at, 2)]
+    out += [("repr", tier, s) for s in tuple(PWHOLE) + (PWHOLE, LWHOLE)]
     if not quick:
         out += [("three", tier, s) for s in sequences(P5, 3)]
         out += [("dev2", tier, pair)
@@ -204,6 +241,20 @@ def cases(part, tier, first):
             for member in ("rev", "id"):
                 yield first, second, with_(kind1="G", shuffle=member)
                 yield second, first, with_(kind2="G", shuffle=member)
+    elif part == "repr":
+        if first == PWHOLE:
+            for (pos1, pos2), thr in itertools.product(position_cases(),
+                                                       ("num", "1m")):
+                yield first, first[::-1], with_(pos1=pos1, pos2=pos2, thr=thr)
+        elif first == LWHOLE:
+            for second, kind, (pos1, pos2) in itertools.product(
+                    (first, first[::-1]), "GH", uniform_position_cases()):
+                yield first, second, with_(kind1=kind, kind2=kind, pos1=pos1,
+                                           pos2=pos2)
+        else:
+            for second, (pos1, pos2) in itertools.product(
+                    PWHOLE, uniform_position_cases()):
+                yield first, second, with_(pos1=pos1, pos2=pos2)
     else:
         aq, at, tq, tt = SPECIAL[part]
         for second in sequences(aq if quick else at, 2):
@@ -214,6 +265,27 @@ def cases(part, tier, first):
                                 for cfg in deviations(1, thr=thr))
 
 
+def position_verdict(bad, spec1, spec2, cfg):
+    """A failure with positions of another type than float64: one that the
+    same call with float64 positions shares keeps its key, any other gets
+    the key of the type (of two types: of the one that fails alone, if one
+    does)."""
+    def fails(pos1, pos2):
+        return evaluate(spec1, spec2,
+                        dict(cfg, pos1=pos1, pos2=pos2))[2] is not None
+
+    if fails(F64, F64):
+        return bad
+    pos = tuple(cfg["pos1"]), tuple(cfg["pos2"])
+    types = sorted(set(pos[0] + pos[1]) - {"float64"})
+    if len(types) > 1:
+        alone = [t for t in types if fails(*(
+            tuple(x if x == t else "float64" for x in side) for side in pos))]
+        types = alone[:1] or types
+    return ("position-dtype/%s/differs-from-the-same-values-as-float64"
+            % "+".join(types), bad[1], bad[2], (bad[0] + " " + bad[3]).strip())
+
+
 def evaluate(spec1, spec2, cfg):
     """-> (skipped, non-trivial, None or (key, expected, observed, msg))"""
     from typhon.collocations import Collocator
@@ -221,8 +293,9 @@ def evaluate(spec1, spec2, cfg):
     if not (model.admissible(d1, cfg["unit1"])
             and model.admissible(d2, cfg["unit2"])):
         return True, False, None
-    ds1, pts1, extras1 = model.build(d1, 100, "obs", cfg["unit1"])
-    ds2, pts2, extras2 = model.build(d2, 200, "spot", cfg["unit2"])
+    pos1, pos2 = tuple(cfg["pos1"]), tuple(cfg["pos2"])
+    ds1, pts1, extras1 = model.build(d1, 100, "obs", cfg["unit1"], pos1)
+    ds2, pts2, extras2 = model.build(d2, 200, "spot", cfg["unit2"], pos2)
     names, extras = model.group_names(cfg), (extras1, extras2)
     _, _, metres, seconds = model.THRESHOLDS[cfg["thr"]]
     exp = model.expected(pts1, pts2, metres, seconds,
@@ -251,6 +324,8 @@ def evaluate(spec1, spec2, cfg):
             pts1, pts2, exp, names, extras) is None:
         bad = ("thresholds/%s-differs-from-%s" % (cfg["thr"], other),
                bad[1], bad[2], (bad[0] + " " + bad[3]).strip())
+    if bad is not None and (pos1, pos2) != (F64, F64):
+        bad = position_verdict(bad, spec1, spec2, cfg)
     return False, bool(exp), bad
 
 
